@@ -7,7 +7,7 @@ use crate::model::{domains, equiv, Refs};
 use serde_json::{json, Value};
 
 pub fn tokens(f: Family) -> Vec<Vec<u8>> {
-	let mut v: Vec<&str> = vec!["a", "%41", "%C3", "%A9", "%80", "%BF", "%C0", "%C1", "%E0", "%ED", "%A0", "%F0", "%F4", "%90", "%F5", "%FF", "%2F", "%25", "%E2", "%82", "%AC"];
+	let mut v: Vec<&str> = vec!["a", "A", "%41", "%C3", "%A9", "%80", "%BF", "%C0", "%C1", "%E0", "%ED", "%A0", "%F0", "%F4", "%90", "%F5", "%FF", "%2F", "%25", "%E2", "%82", "%AC"];
 	if f == Family::Iri {
 		v.push("é");
 	}
